@@ -210,8 +210,25 @@ def run_check(pid, tier, seed, jobs=16, only=None):
         cases_sorted = sorted(cases, key=lambda c: -c.get("weight", 1))
         with mp.get_context("fork").Pool(min(jobs, len(cases)), initializer=_worker_init,
                                          initargs=(pid, tier, seed, ctx.mir, sorted(ctx.active_regions), ctx.timeout_ms)) as pool:
-            for r in pool.imap_unordered(_worker_run, cases_sorted, chunksize=1):
+            # whole-check wall budget (VERIF_CHECK_BUDGET; quick 1800 s, thorough 6 h): on a changed tree a check can become orders of
+            # magnitude slower; when the budget is used up the cases still running or waiting are abandoned (reported as inconclusive),
+            # what the finished cases found is replayed and reported as usual
+            cbudget = int(os.environ.get("VERIF_CHECK_BUDGET", "21600" if tier == "thorough" else "1800"))
+            it = pool.imap_unordered(_worker_run, cases_sorted, chunksize=1)
+            done_ids = set()
+            while len(results) < len(cases_sorted):
+                left = cbudget - (time.time() - t_start)
+                try:
+                    r = it.next(timeout=max(left, 1))
+                except mp.TimeoutError:
+                    missing = [c["id"] for c in cases_sorted if c["id"] not in done_ids]
+                    inconclusive.append("check budget of %d s used up: %d cases not finished (%s ...)" % (cbudget, len(missing), "; ".join(missing[:3])))
+                    pool.terminate()
+                    break
+                except StopIteration:
+                    break
                 results.append(r)
+                done_ids.add(r.get("case"))
     else:
         _worker_init(pid, tier, seed, ctx.mir, sorted(ctx.active_regions), ctx.timeout_ms)
         for c in cases:
